@@ -579,7 +579,7 @@ fn run_variant(args: &Args, wat: bool, wit: bool) -> Result<(), String> {
     }
     // cargo serialises concurrent builds in one target directory by itself
     let st = std::process::Command::new("cargo")
-        .args(["build", "--offline", "--quiet", "-p", &name])
+        .args(["build", "--offline", "--quiet", "-j", "6", "-p", &name])
         .current_dir(&ws)
         .env("CARGO_TARGET_DIR", ws.join("target"))
         .env("CARGO_NET_OFFLINE", "true")
